@@ -1590,8 +1590,11 @@ def _box_function_checks(np, coords32, box, exact):
             continue
         k = (w - arr.astype(np.float64)) @ inv
         f = w @ inv
-        ftol = tol * float(np.abs(inv).max()) * 3 + (1e-9 if exact else 1e-5)     # 1e-9: float64 inverse of this oracle itself
-        if np.abs(k - np.round(k)).max() > ftol or f.min() < -ftol or f.max() > 1 + ftol or (exact and f.max() >= 1 - 1e-9):
+        # the code works in float32 (float32 `inv`, matmul, `% 1`, matmul): a few ulps relative to the magnitude of the
+        # fractional coordinates before wrapping; both ends closed (`% 1` may round to 1.0, a tiny negative stays negative)
+        mag = 3.0 * float(np.abs(arr).max() if arr.size else 0.0) * float(np.abs(inv).max())
+        ftol = 64 * float(np.finfo(np.float32).eps) * (1.0 + mag)
+        if np.abs(k - np.round(k)).max() > ftol or f.min() < -ftol or f.max() > 1 + ftol:
             v.append((f"C14/box/move_inside_box/{level}/not-a-lattice-shift-into-the-cell",
                       f"fractional coordinates of the result in [{f.min():.6g}, {f.max():.6g}], shift deviates from the lattice by "
                       f"{np.abs(k - np.round(k)).max():.3g} (box {box.tolist()})"))
@@ -1608,7 +1611,8 @@ def _box_function_checks(np, coords32, box, exact):
             for bi in range(m):
                 d = (rc[bi * n:(bi + 1) * n].astype(np.float64) - coords32.astype(np.float64))
                 kk = d @ inv
-                if np.abs(kk - kk[0]).max() > 1e-4 or np.abs(kk[0] - np.round(kk[0])).max() > 1e-4:
+                ktol = 1e-4 + 64 * float(np.finfo(np.float32).eps) * (1.0 + 3.0 * float(np.abs(rc).max()) * float(np.abs(inv).max()))
+                if np.abs(kk - kk[0]).max() > ktol or np.abs(kk[0] - np.round(kk[0])).max() > ktol:
                     ok = False
                     break
                 shifts.add(tuple(int(x) for x in np.round(kk[0])))
@@ -1622,7 +1626,7 @@ def _box_function_checks(np, coords32, box, exact):
         fr = np.asarray(coord_to_fraction(coords32, box), dtype=np.float64)
         back = np.asarray(fraction_to_coord(coord_to_fraction(coords32, box), box), dtype=np.float64)
         if np.abs(fr - coords32.astype(np.float64) @ inv).max() > 1e-4 * (1 + np.abs(fr).max()) or \
-                np.abs(back - coords32).max() > (1e-9 if exact else 1e-4 * scale):
+                np.abs(back - coords32).max() > max(1e-4, 64 * float(np.finfo(np.float32).eps) * float(np.abs(B).max()) * float(np.abs(inv).max())) * scale:
             v.append(("C14/box/coord_to_fraction/round-trip", f"fraction_to_coord(coord_to_fraction(x)) != x for box {box.tolist()}"))
         dots = [abs(float(B[i] @ B[j])) for i, j in ((0, 1), (0, 2), (1, 2))]
         err = 5e-7 * float((B * B).sum(axis=1).max())      # float32 rounding of the dot products inside is_orthogonal
